@@ -206,7 +206,17 @@ def handle (req : Json) : Except String Json := do
   let ctorBlocked := specImpl.isSome
   match built with
   | .error _ => pure ()
-  | .ok c =>
+  | .ok c0 =>
+    -- Selector.objects edited after the declaration: the constraint in force is the list as it is now
+    let objectsAfter ← match case.getObjVal? "objects_after" with
+      | .ok (.arr a) => some <$> a.toList.mapM parseVal
+      | _ => pure none
+    let c : Cfg := match objectsAfter with
+      | some os => { c0 with objects := os }
+      | none => c0
+    let specC : Option Cfg := match objectsAfter with
+      | some os => specC.map fun sc => { sc with objects := os }
+      | none => specC
     let mut i := 0
     for v in values do
       let x := ctxOf (rxs.getD i false)
@@ -222,14 +232,21 @@ def handle (req : Json) : Except String Json := do
       let mut dv? : Option PyVal := none
       match dj with
       | .arr a =>
-        if a.size == 3 then
+        if a.size == 4 then
+          -- a[2] = what the implementation deserialised, a[3] = the JSON-decoded value it started from
           let dv ← parseVal a[2]!
+          let jv ← parseVal a[3]!
           dv? := some dv
-          let rd := validate c x dv
+          -- the model deserialises itself where it can (Tuple family, identity types), and falls back
+          -- to the implementation's deserialised value for the date types (strptime: C15)
+          let rd : R := match assign .deser c x jv with
+            | .stored _ _ => .ok ()
+            | .rejected e => .error e
+            | .notModelled => validate c x dv
           let rbd : Json := match rd with
             | .ok _ => Json.str (expectedReadback c dv)
             | .error _ => Json.null
-          fields := fields ++ [("deser", Json.arr #[Json.str (resName rd), rbd, a[2]!])]
+          fields := fields ++ [("deser", Json.arr #[Json.str (resName rd), rbd, a[2]!, a[3]!])]
         else fields := fields ++ [("deser", Json.null)]
       | _ => fields := fields ++ [("deser", Json.null)]
       modelVals := modelVals ++ [Json.mkObj fields]
